@@ -957,6 +957,13 @@ class Executor:
             if len(a)==1: start,stop=mk_int(ity,0),cast(a[0],ity,self)
             else: start,stop=cast(a[0],ity,self),cast(a[1],ity,self)
             return RangeState(ity,start,stop,mk_int(ity,1))
+        if f is abs:
+            rt=unlit(sig.return_type); x=cast(a[0],rt,self)
+            if is_float(rt):
+                if self.fpmode=='real': return Val(rt, z3.If(x.t>=0, x.t, -x.t))
+                return Val(rt, z3.fpAbs(x.t))
+            if is_int(rt) and rt.signed: return Val(rt, simp(z3.If(x.t<0, -x.t, x.t)))
+            return x
         if f is min or f is max:
             rt=unlit(sig.return_type)
             x=cast(a[0],rt,self); y=cast(a[1],rt,self)
